@@ -101,6 +101,11 @@ EFFECTS = [
          calls={"_check_keepalive": dict(clobbers="*"),
                 "_sock_close": dict(clobbers=["_sock"]),
                 "_do_on_disconnect": dict(clobbers="*", kwargs=["packet_from_broker", "v1_rc"])}),
+    # (`returns`: the call's result is a parameter `ret_<callee>` of the translated function - the callee's behaviour is the
+    # equivalence theorem's business; `ignore`: calls without effect on the client state, e.g. logging)
+    dict(file="FnKeepalive", src="client.py", qual="Client._send_pingreq", name="sendPingreq", params=[], ret="Int",
+         attrs=[], clock="now", ignore=["_easy_log"],
+         calls={"_send_simple_command": dict(clobbers="*", args=1, returns=True)}),
     dict(file="FnLoopRc", src="client.py", qual="Client._loop_rc_handle", name="loopRcHandle", params=[("rc", "Int")], ret="Int",
          attrs=[("_sock", "Ref"), ("_state", "Int")], clock="now",
          calls={"_sock_close": dict(clobbers=["_sock"]),
@@ -756,8 +761,13 @@ class EffTr(Tr):
         name = v.func.attr
         c = self.cfg["calls"][name]
         args = []
-        if v.args:
+        if len(v.args) != c.get("args", 0):
             raise Missing(f"positional arguments in self.{name}()")
+        for a_ in v.args:
+            a, t = self.expr(a_)
+            if t != "Int":
+                raise Missing(f"positional argument of type {t}")
+            args.append(a)
         kw = {k.arg: k.value for k in v.keywords}
         if sorted(kw) != sorted(c.get("kwargs", [])):
             raise Missing(f"keyword arguments of self.{name}(): {sorted(kw)}")
@@ -806,13 +816,31 @@ class EffTr(Tr):
                 if s.targets[0].id != self.cfg["clock"] or s.targets[0].id in self.types:
                     raise Missing("time_func() read more than once / into another name")
                 self.types[s.targets[0].id] = "Int"          # the parameter
-            elif isinstance(s, ast.Assign) and len(s.targets) == 1 and self.is_self_attr(s.targets[0]):
+            elif isinstance(s, ast.Assign) and len(s.targets) == 1 and self.is_self_attr(s.targets[0]) and not (
+                    isinstance(s.value, ast.Call) and isinstance(s.value.func, ast.Name) and s.value.func.id == "time_func"):
                 a = s.targets[0].attr
                 val, t = self.expr(s.value)
                 if t != "Int":
                     raise Missing(f"self.{a} assigned a {t}")
                 out.append(f'{pad}effs := effs ++ [Py.MEff.setInt "{a}" {val}]')
                 self.clobbered.add(a)
+            elif v is not None and isinstance(v, ast.Call) and self.is_self_attr(v.func) and v.func.attr in self.cfg.get("ignore", []):
+                pass
+            elif isinstance(s, ast.Assign) and len(s.targets) == 1 and isinstance(s.targets[0], ast.Name) and self.is_call(s.value) \
+                    and self.cfg["calls"][s.value.func.attr].get("returns"):
+                n = s.targets[0].id
+                pn = "ret_" + s.value.func.attr.lstrip("_")
+                if n in self.types or any(x[0] == pn for x in self.extra):
+                    raise Missing(f"result of self.{s.value.func.attr}() bound twice")
+                out.append(self.call_eff(pad, s.value))
+                self.extra.append((pn, "Int"))
+                self.types[n] = "Int"
+                out.append(f"{pad}let mut {lname(n)} : Int := {pn}")
+            elif isinstance(s, ast.Assign) and len(s.targets) == 1 and self.is_self_attr(s.targets[0]) and isinstance(s.value, ast.Call) \
+                    and isinstance(s.value.func, ast.Name) and s.value.func.id == "time_func" and not s.value.args:
+                # (every reading of the clock within one call is the same instant of the virtual clock)
+                out.append(f'{pad}effs := effs ++ [Py.MEff.setInt "{s.targets[0].attr}" {self.cfg["clock"]}]')
+                self.clobbered.add(s.targets[0].attr)
             elif v is not None and self.is_call(v):
                 if self.cfg["calls"][v.func.attr].get("raises"):
                     raise Missing(f"self.{v.func.attr}() outside try/except")
